@@ -181,7 +181,7 @@ __CPROVER_ensures(slist->len == __CPROVER_old(slist->len) + 1 && __CPROVER_is_fr
 __CPROVER_ensures(xv_ce < __CPROVER_old(slist->len) ==> slist->elems[xv_ce] == xv_g_elem)
 /* PO[C10,C08] append.new_element_is_an_owned_copy_of_exactly_the_designated_bytes */
 __CPROVER_ensures(str != NULL ==> (__CPROVER_is_fresh(slist->elems[slist->len - 1], str_len + 1) && slist->elems[slist->len - 1][str_len] == 0 && \
-                                   (xv_mc < str_len ==> slist->elems[slist->len - 1][xv_mc] == str[xv_mc])))
+                                   ((xv_mc < str_len && !xv_trust_shape) ==> slist->elems[slist->len - 1][xv_mc] == str[xv_mc])))
 __CPROVER_ensures(str == NULL ==> slist->elems[slist->len - 1] == NULL)
 /* PO[C08] append.blocks_owned_by_the_list */
 __CPROVER_ensures(xv_heap_live == __CPROVER_old(xv_heap_live) + (__CPROVER_old(slist->len) == 0 ? 1 : 0) + (str != NULL ? 1 : 0))
@@ -208,7 +208,7 @@ __CPROVER_ensures(xv_heap_live == __CPROVER_old(xv_heap_live) + (__CPROVER_old(s
  * the result is a list the caller owns, empty for the empty string, of 1..length+1 elements otherwise.  WHICH pieces: job
  * cert.slist_split_b (bounded, exact). */
 struct slist *slist_split(const char *str, char delim)
-__CPROVER_requires(XC_STR(str, xv_l1) && xv_l1 < XC_STR_MAX && XV_LIVE_OK(xv_heap_live) && xv_heap_live == xv_heap0 && xv_trust_shape)
+__CPROVER_requires(xv_l1 < XC_STR_MAX && XC_STR(xv_g_str, xv_l1) && str == xv_g_str && XV_LIVE_OK(xv_heap_live) && xv_heap_live == xv_heap0 && xv_trust_shape)
 __CPROVER_assigns(xv_heap_live, xv_scn_len)
 /* PO[C10,C08] slist_split.result_is_a_list_the_caller_owns */
 __CPROVER_ensures(__CPROVER_is_fresh(__CPROVER_return_value, sizeof(struct slist)) && __CPROVER_return_value->len <= xv_l1 + 1)
